@@ -104,6 +104,7 @@ type FuncCtx struct {
 	coverFail      []string
 	poison         *poisonState
 	rfamCache      []famInst
+	arrViewSrc     map[string]arrViewInfo
 	recInfos       map[*SpecFunc]*recInfo
 	recBuilding    *recInfo
 	recSeen        map[string]bool
@@ -213,12 +214,17 @@ func (fx *FuncCtx) noteBoolDef(name, body string) {
 	fx.boolDefs[name] = body
 }
 
+type arrViewInfo struct {
+	src ast.Expr
+	t   *types.Array
+}
+
 type fxSnapshot struct {
-	nDecls   int
-	freshN   map[string]int
-	nObls    int
-	nExits   int
-	oblNames map[string]int
+	nDecls                                              int
+	freshN                                              map[string]int
+	nObls                                               int
+	nExits                                              int
+	oblNames                                            map[string]int
 	nRecInfo, nRecSeen, nRecUnfold, nRecFrames, nRecTop int
 }
 
